@@ -7,5 +7,18 @@ function(add_sim_engine name)
   target_link_libraries(${name} PRIVATE simcore)
 endfunction()
 
+# scheduler + interposers: no sanitizer flags on purpose (see sched.cpp); the TSan variant has no interposers
+add_library(simsched STATIC ${VERIF_DIR}/sim/sched.cpp)
+target_include_directories(simsched PUBLIC ${VERIF_DIR})
+target_compile_options(simsched PRIVATE -O2 -g1 -std=c++17)
+if(VARIANT STREQUAL "tsan")
+  target_compile_definitions(simsched PRIVATE SIM_NO_INTERPOSE)
+endif()
+function(add_sched_engine name)
+  add_sim_engine(${name} ${ARGN})
+  target_link_libraries(${name} PRIVATE simsched simhandoff dl pthread)
+endfunction()
+
 add_sim_engine(dssim ${VERIF_DIR}/engines/dssim.cpp)
 add_sim_engine(plansim ${VERIF_DIR}/engines/plansim.cpp ${VERIF_DIR}/engines/planners_geo.cpp)
+add_sched_engine(ptcsim ${VERIF_DIR}/engines/ptcsim.cpp)
